@@ -295,7 +295,14 @@ def run(ctx):
             cls_ = _classify_index(ctx, f, arg, upd, sop, ft)
             rmc = [n for n in own_nodes(f.node) if isinstance(n, ast.Call) and isinstance(n.func, ast.Attribute) and n.func.attr == "remove_node"]
             src = ast.unparse(f.node)
-            guarded = "== 1" in src and "is_completed_observer" in src and ("is_removed" in src or "removed_nodes" in src)
+            # a comparison of a flag with 1 (either way round), the flags coming from
+            # the completion observer, and a still-present test on the node
+            cmp1 = any(
+                isinstance(x, ast.Compare) and len(x.ops) == 1 and isinstance(x.ops[0], ast.Eq)
+                and any(isinstance(y, ast.Constant) and y.value == 1 for y in (x.left, x.comparators[0]))
+                for x in own_nodes(f.node)
+            )
+            guarded = cmp1 and "is_completed_observer" in src and ("is_removed" in src or "removed_nodes" in src)
             if not rmc:
                 chk.violation("R17.c", f, call, f"the completed {kind} node is looked up but never removed", loc=f.loc(call))
             elif not guarded:
